@@ -1,11 +1,13 @@
 package props
 
 import (
-	"strconv"
 	"context"
 	"fmt"
 	"net/http"
 	"os"
+	"os/exec"
+	"path/filepath"
+	"strconv"
 	"strings"
 	"time"
 
@@ -208,6 +210,7 @@ func init() {
 		Assume: []string{"memory-model level data races are only sampled by a separate free-running -race pass, not enumerated",
 			"the shim's deterministic LIFO pool is the maximal-reuse behaviour the real sync.Pool may exhibit"},
 		Custom:  c14Custom,
+		Aux:     c14RaceAux,
 		Sharded: true,
 	})
 }
@@ -477,4 +480,40 @@ func compressTrace(tr []string) string {
 		i = j
 	}
 	return sb.String()
+}
+
+// c14RaceAux runs the free-running race-detector pass (a -race build of this binary, made by
+// bin/check) over the same harness bodies. Auxiliary: it samples schedules and catches what
+// the cooperative scheduler cannot see (unsynchronised accesses between scheduling points).
+func c14RaceAux(rc *RunCtx, rep *Report) {
+	bin := os.Getenv("VERIF_RACE_BIN")
+	if bin == "" {
+		rep.Extra["free_running_race_pass"] = "not run (no -race binary; use bin/check)"
+		return
+	}
+	iter := 2
+	if rc.Tier == "thorough" {
+		iter = 20
+	}
+	logBase := filepath.Join(VerifDir, "replays", "C14-race")
+	_ = os.MkdirAll(filepath.Dir(logBase), 0o755)
+	old, _ := filepath.Glob(logBase + ".*")
+	for _, f := range old {
+		_ = os.Remove(f)
+	}
+	cmd := exec.Command(bin, "-race-pass", strconv.Itoa(iter))
+	cmd.Env = append(os.Environ(), "GORACE=halt_on_error=0 exitcode=66 log_path="+logBase)
+	out, err := cmd.CombinedOutput()
+	logs, _ := filepath.Glob(logBase + ".*")
+	res := map[string]any{"iterations_per_combination": iter, "output": strings.TrimSpace(string(out)), "race_reports": len(logs)}
+	rep.Extra["free_running_race_pass"] = res
+	switch {
+	case len(logs) > 0:
+		b, _ := os.ReadFile(logs[0])
+		rep.Violations = append(rep.Violations, Found{Scenario: "race-pass", V: xplorViolation("C14.data-race", "the Go race detector reported a data race while RPCs shared one Transcoder (free-running pass); report: "+logs[0]+"\n"+short(string(b)), map[string]string{"harness": "free-running"}, nil, []string{"racelog=" + logs[0]})})
+	case err != nil && !strings.Contains(string(out), "race-pass: runs="):
+		rep.Broken = append(rep.Broken, "race pass did not run: "+err.Error()+" "+short(string(out)))
+	case err != nil:
+		rep.Violations = append(rep.Violations, Found{Scenario: "race-pass", V: xplorViolation("C14.race-pass-problem", short(string(out)), map[string]string{"harness": "free-running"}, nil, nil)})
+	}
 }
